@@ -1,10 +1,11 @@
-"""C40: Om.tla exhaustive (hash and JSON repositories, 3 concurrent savers) + negative configs; TLC-generated behaviours
-replayed on the real om repositories over fakeredis (omdrv -mode replay); generated field values of every supported
-type saved and fetched back (omdrv -mode roundtrip)."""
+"""C40: Om.tla exhaustive (hash and JSON repositories; concurrent savers, SaveMulti batches over several keys, expiry and the
+server clock) + negative configs; TLC-generated behaviours replayed on the real om repositories over fakeredis with a virtual
+clock (omdrv -mode replay); the cells of OmTypes.tla (repository x place x field type x boundary class) executed on the real
+repositories (omdrv -mode types); generated field values of every supported type saved and fetched back (omdrv -mode roundtrip)."""
 import os, shutil, tempfile
 from concurrent.futures import ThreadPoolExecutor
 from lib import vlib
-from checks import bloomcommon as bc
+from checks import omcommon as oc
 
 LEVEL = 'model_checking'
 
@@ -13,34 +14,47 @@ def run(ctx):
     th = ctx.tier == 'thorough'
     binp = vlib.build('omdrv')
     # --- model
-    cfgs = ['MC_om_hash_quick.cfg', 'MC_om_hash_quick2.cfg', 'MC_om_json_quick.cfg', 'MC_om_json_quick2.cfg']
+    cfgs = ['MC_om_%s_%s.cfg' % (r, c) for c in ('quick', 'quick2', 'batch', 'exp') for r in ('hash', 'json')]
     if th:
-        cfgs += ['MC_om_hash_thorough.cfg', 'MC_om_json_thorough.cfg']
+        cfgs += ['MC_om_%s_%s.cfg' % (r, c) for c in ('thorough', 'batch_thorough', 'exp_thorough') for r in ('hash', 'json')]
     skip = os.environ.get('VERIF_SKIP_MODEL') == '1'   # development aid for the mutation self-test: this stage does not read the repository
     if skip:
         ctx.assumptions.append('VERIF_SKIP_MODEL=1: exhaustive model checking and negative configs were skipped in this run')
-    for c in ([] if skip else cfgs):
-        bc.run_tlc(ctx, 'Om', c, workers=8, timeout=1500)
-    bc.run_many(ctx, [dict(module='Om', cfg=c, expect=inv, kw=dict(workers=2, timeout=300)) for c, inv in [
-        ('MC_om_neg_inverted.cfg', 'AtMostOneWinner'), ('MC_om_neg_noincr.cfg', 'VersionPlusOne'),
-        ('MC_om_neg_dropsfield.cfg', 'AllFieldsStored'),
-        # the hash repository as it is: nil pointer fields are not cleared (known finding, reproduced on the real code below)
-        ('MC_om_hash_nilkeeps.cfg', 'FetchEqualsSaved')] if not skip])
+    negs = [('MC_om_neg_inverted.cfg', 'AtMostOneWinner'), ('MC_om_neg_noincr.cfg', 'VersionPlusOne'),
+            ('MC_om_neg_dropsfield.cfg', 'AllFieldsStored'),
+            ('MC_om_neg_batchshare.cfg', 'FetchEqualsSavedButNil'),   # SaveMulti is not the sequence of its single saves
+            ('MC_om_neg_expzero.cfg', 'SavedIsFetchable'),            # the zero time sent as an expiry
+            ('MC_om_neg_exppast.cfg', 'SavedIsFetchable'),            # a passed expiry ignored
+            # the hash repository as it is: nil pointer fields are not cleared (known finding, reproduced on the real code below)
+            ('MC_om_hash_nilkeeps.cfg', 'FetchEqualsSaved')]
     # --- behaviours
-    jobs = [('Gen_om_hash.cfg', None), ('Gen_om_json.cfg', None)]
+    jobs = []
+    for r in ('hash', 'json'):
+        jobs += [('Gen_om_%s.cfg' % r, None), ('Gen_om_%s_batch.cfg' % r, None), ('Gen_om_%s_batchexp.cfg' % r, None),
+                 ('Gen_om_%s_exp.cfg' % r, None)]
     nsim = 1500 if th else 250
+    nmix = 1500 if th else 200
     for i in range(2 if th else 1):
-        jobs += [('GenSim_om_hash.cfg', ctx.seed * 100 + i), ('GenSim_om_json.cfg', ctx.seed * 100 + 50 + i)]
+        jobs += [('GenSim_om_hash.cfg', ctx.seed * 100 + i, nsim), ('GenSim_om_json.cfg', ctx.seed * 100 + 50 + i, nsim),
+                 ('GenSim_om_hash_mix.cfg', ctx.seed * 100 + 20 + i, nmix), ('GenSim_om_json_mix.cfg', ctx.seed * 100 + 70 + i, nmix)]
 
     def gen(job):
-        cfg, seed = job
-        kw = dict(workers=1, timeout=1200, collect_cases=True)
+        cfg, seed = job[0], job[1]
+        kw = dict(workers=1, timeout=3000, collect_cases=True)
         if seed is not None:
-            kw.update(simulate=nsim, depth=13, seed=seed)
-        return vlib.tlc(bc.FAMILY, 'Om', cfg, **kw)
+            kw.update(simulate=job[2], depth=13, seed=seed)
+        return vlib.tlc(oc.FAMILY, 'Om', cfg, **kw)
     behaviours = []
-    with ThreadPoolExecutor(max_workers=4) as ex:
-        for (cfg, seed), r in zip(jobs, ex.map(gen, jobs)):
+    # all TLC runs share one pool (most of them are small: JVM start-up dominates); results are recorded in a fixed order
+    with ThreadPoolExecutor(max_workers=5) as ex:
+        fgen = [ex.submit(gen, j) for j in jobs]
+        fmc = [] if skip else [(c, None, ex.submit(oc.raw_tlc, 'Om', c, workers=3, timeout=3000)) for c in cfgs]
+        fmc += [] if skip else [(c, inv, ex.submit(oc.raw_tlc, 'Om', c, workers=1, timeout=900)) for c, inv in negs]
+        for c, inv, f in fmc:
+            oc.record(ctx, f.result(), 'Om', c, inv)
+        for job, f in zip(jobs, fgen):
+            r = f.result()
+            cfg, seed = job[0], job[1]
             ctx.tlc_runs.append(dict(r.summary(), purpose='behaviour generation', behaviours=len(r.cases)))
             ctx.states += r.distinct
             ctx.transitions += r.generated
@@ -50,13 +64,25 @@ def run(ctx):
             for i, c in enumerate(r.cases):
                 behaviours.append(dict(id='%s-%d' % (cfg, i), repo=c['repo'], init=c['init'], steps=c['steps'],
                                        src='exhaustive' if seed is None else 'simulate seed %d' % seed))
+    cells = vlib.tlc(oc.FAMILY, 'OmTypes', 'Gen_om_types.cfg', workers=1, timeout=900, collect_cases=True)
+    ctx.tlc_runs.append(dict(cells.summary(), purpose='field type cells', cells=len(cells.cases)))
     tmp = tempfile.mkdtemp(prefix='verif-om-', dir=vlib.SCRATCH_ROOT)
     try:
         if behaviours:
             path = os.path.join(tmp, 'behaviours.ndjson')
             vlib.write_ndjson(path, behaviours)
-            ctx.run_driver(binp, ['-mode', 'replay', '-in', path], timeout=1800)
+            ctx.run_driver(binp, ['-mode', 'replay', '-in', path], timeout=3600)
             ctx.extra['behaviours_generated'] = len(behaviours)
+        if not cells.ok or not cells.cases:
+            ctx.inconclusive.append('OmTypes generation failed: %s\n%s' % (cells.error, cells.output[-2000:]))
+        else:
+            path = os.path.join(tmp, 'cells.ndjson')
+            vlib.write_ndjson(path, cells.cases)
+            rep = ctx.run_driver(binp, ['-mode', 'types', '-in', path], timeout=1800)
+            if rep and rep.get('extra'):
+                ctx.extra['type_cells'] = dict(given=rep['extra'].get('cells_given'), equal=rep['extra'].get('cells_equal'))
+                if rep['extra'].get('cells_given') != len(cells.cases):
+                    ctx.inconclusive.append('omdrv -mode types read %s of the %d cells of OmTypes.tla' % (rep['extra'].get('cells_given'), len(cells.cases)))
         rep = ctx.run_driver(binp, ['-mode', 'roundtrip', '-runs', '1500' if th else '300'], timeout=1800)
         if rep and rep.get('extra'):
             ctx.extra['field_types'] = rep['extra'].get('field_types')
@@ -64,9 +90,13 @@ def run(ctx):
         shutil.rmtree(tmp, ignore_errors=True)
     ctx.exhaustive = False
     ctx.assumptions += [
-        'fakeredis + luamini execute the real save scripts; RedisJSON (JSON.SET / JSON.GET / JSON.NUMINCRBY) is emulated on encoding/json',
+        'fakeredis + luamini execute the real save scripts; RedisJSON (JSON.SET / JSON.GET / JSON.NUMINCRBY) is emulated on encoding/json; '
+        'HSET and JSON.SET of the root keep the TTL of the key; PEXPIREAT with a time <= now removes the key',
+        'the server clock is virtual (advanced only by the Tick steps of a behaviour); the client side cache learns of an expiry by the '
+        'invalidation message, FetchCache is polled for up to 2 s before a difference counts',
         'concurrency: the save script is atomic on the server, so "concurrent saves from the same version" are sequential script '
-        'executions by savers holding copies of the same version; TLC orders them in every way within the bounds',
-        'entities are compared field by field with nil and empty slices/maps identified; JSON-encoded fields hold valid UTF-8 and exactly '
-        'representable floats only (encoding/json is lossy otherwise)',
+        'executions by savers holding copies of the same version; TLC orders them in every way within the bounds; a SaveMulti batch is '
+        'one pipeline on one connection, executed in order',
+        'entities are compared field by field with nil and empty slices/maps identified, times as instant + zone offset, floats bit by '
+        'bit; JSON-encoded strings hold valid UTF-8 and JSON-encoded floats are finite (OmTypes.tla: SupportedClass)',
     ]
